@@ -403,6 +403,45 @@ fn big_decode(flush: bool) -> DecodeFn {
     })
 }
 
+/// C19: one OSC 0/1/2 string whose payload is as long as the usual read buffers (and a little
+/// more or less), fed through the ByteParser in buffer-sized reads
+fn big_osc_decode() -> DecodeFn {
+    Arc::new(|s: &mut Src| {
+        let mut ops = Vec::new();
+        let eight = s.chance(60);
+        if eight {
+            ops.push(Op::SelCharset("@".into()));
+        }
+        let target = *s.pick(&[1000u32, 4090, 4096, 4100, 8192, 16384, 20000, 65536]) as usize + s.below(4) as usize;
+        let mut b: Vec<u8> = Vec::with_capacity(target + 32);
+        b.extend_from_slice(s.pick::<&[u8]>(&[b"", b"ab", b"\r\n"]));
+        if eight {
+            b.extend_from_slice(s.pick::<&[u8]>(&[b"\x1b]", b"\x9d"]));
+        } else {
+            b.extend_from_slice(s.pick::<&[u8]>(&[b"\x1b]", b"\xc2\x9d"]));
+        }
+        b.extend_from_slice(s.pick::<&[u8]>(&[b"0;", b"1;", b"2;", b"2;;", b"0;p", b"2;pq", b"2;pqr"]));
+        let filler: &[u8] = if eight {
+            s.pick::<&[u8]>(&[b"a", b"ab;c\\ ", b"\xe9", b"x\xe9\xff"])
+        } else {
+            s.pick::<&[u8]>(&[b"a", b"\xc3\xa9", b"\xe4\xb8\xad", b"x\xf0\x9f\x98\x80", b"ab;c\\ ", b"\xe2\x82\xac]"])
+        };
+        while b.len() < target {
+            b.extend_from_slice(filler);
+        }
+        if eight {
+            b.extend_from_slice(s.pick::<&[u8]>(&[b"\x07", b"\x1b\\", b"\x9c"]));
+        } else {
+            b.extend_from_slice(s.pick::<&[u8]>(&[b"\x07", b"\x1b\\", b"\xc2\x9c"]));
+        }
+        b.extend_from_slice(b"Z");
+        for ch in gen::big_chunking(s, &b) {
+            ops.push(Op::FeedBytes(ch));
+        }
+        Case { cols: 20, lines: 4, ops }
+    })
+}
+
 /// a whole state-reaching history rendered as escape sequences and cut into feed() calls
 /// (operations without a sequence - resize, display - stay API calls between the feeds)
 fn rendered_history_decode() -> DecodeFn {
@@ -506,7 +545,7 @@ pub fn spec(id: &str) -> Option<Spec> {
                 let run: RunFn = Arc::new(|c: &Case| run_c02(c));
                 let mut v = vec![
                     gen_sub("gen-chunking", c02_decode(), run.clone(), (120_000, 4_000_000), 700),
-                    gen_sub("gen-big-feeds", big_decode(false), run.clone(), (320, 12_000), 200),
+                    gen_sub("gen-big-feeds", big_decode(false), run.clone(), (640, 24_000), 200),
                     gen_sub("gen-rendered-histories", rendered_history_decode(), run.clone(), (60_000, 2_000_000), 700),
                 ];
                 v.extend(exh::c02_subs(run));
@@ -627,9 +666,13 @@ pub fn spec(id: &str) -> Option<Spec> {
         ),
         "C19" => stepper_spec(
             "C19",
-            "OSC strings from the payload grammar (both introducers, codes 0-9, letters and multi-digit, payload with ; \\ ] non-ASCII, ESC x pairs, C0 controls, three terminators) with text before and after, arbitrarily chunked, through Parser and ByteParser; oracle: reference recogniser gives title/icon = payload and the model says nothing else changes. Non-trivial = set_title/set_icon_name steps; distinct by hash of (pre-state, op)",
+            "OSC strings from the payload grammar (both introducers, codes 0-9, letters and multi-digit, payload with ; \\ ] non-ASCII, ESC x pairs, C0 controls, three terminators) with text before and after, arbitrarily chunked, through Parser and ByteParser, plus payloads of 1-64 KiB fed in buffer-sized reads; oracle: reference recogniser gives title/icon = payload and the model says nothing else changes. Non-trivial = set_title/set_icon_name steps; distinct by hash of (pre-state, op)",
             (60_000, 2_500_000),
-            exh::c19_subs(),
+            {
+                let mut v = exh::c19_subs();
+                v.push(gen_sub("gen-big-osc", big_osc_decode(), stepper_run(cfg_for("C19")), (480, 16_000), 200));
+                v
+            },
         ),
         "C20" => stepper_spec(
             "C20",
